@@ -187,11 +187,12 @@ func (c *ccm) Seal(dst, nonce, plaintext, data []byte) []byte {
 	c.deriveCounter(&counter, nonce)
 	c.cipher.Encrypt(tagMask[:], counter[:])
 
+	// the tag is computed first: out may reuse the storage of plaintext
+	tag := c.auth(nonce, plaintext, data, &tagMask)
+
 	counter[len(counter)-1] |= 1
 	ctr := cipher.NewCTR(c.cipher, counter[:])
 	ctr.XORKeyStream(out, plaintext)
-
-	tag := c.auth(nonce, plaintext, data, &tagMask)
 	copy(out[len(plaintext):], tag)
 
 	return ret
